@@ -347,7 +347,10 @@ def constname_cases():
              {'at': [0, 0, 4, 2], 'f': ['bin', '*', rate, ['num', 100.0]]},
              {'at': [0, 0, 5, 2], 'v': 7.0},
              {'at': [0, 0, 4, 3], 'f': ['bin', '+', ['ref', [0, 0, 4, 2]], ['num', 1.0]]},
-             {'at': [0, 0, 5, 3], 'f': ['fn', 'SUM', ['rng', [0, 0, 4, 2, 5, 2]]]}]
+             {'at': [0, 0, 5, 3], 'f': ['fn', 'SUM', ['rng', [0, 0, 4, 2, 5, 2]]]},
+             {'at': [0, 0, 1, 5], 'v': 2.0},
+             {'at': [0, 0, 1, 6], 'f': ['bin', '*', ['fn', 'SUM', ['rng', [0, 0, 1, 1, 2, 1]]], ['ref', [0, 0, 1, 5]]]},
+             {'at': [0, 0, 2, 6], 'f': ['bin', '+', ['ref', [0, 0, 2, 1]], ['ref', [0, 0, 1, 5]]]}]
     spec = {'books': [{'name': 'b0.xlsx', 'sheets': ['S1']}], 'cells': cells, 'names': [{'name': 'TOTAL_IN', 'rect': [0, 0, 4, 2, 5, 2]}],
             'fnames': [{'name': G.FNAME_POOL[0], 'f': rate[2], 'book': 0, 'raw': True}, {'name': G.FNAME_POOL[1], 'f': rate, 'book': 0}]}
     bs = [[0, 0, r, 2] for r in (1, 2, 3, 4)]
@@ -363,6 +366,13 @@ def constname_cases():
         for mode in ('compile', 'calc', 'calc-outputs'):
             for pname, ins, outs, args in plans:
                 yield {'k': 'constname', 'spec': spec, 'plan': pname, 'ins': ins, 'outs': outs, 'args': args, 'path': path, 'mode': mode}
+        # a range the outputs read but the inputs do not feed is a compile-time constant of the function: what-ifs on the
+        # model between two calls (other values for the cells of that range) must not reach it (added after seed c08-a-r6)
+        for bname, between in (('cell-of-frozen-range', [['cell', [0, 0, 1, 1], 50.0]]),
+                               ('frozen-range', [['rect', [0, 0, 1, 1, 2, 1], [[50.0], [60.0]]]]),
+                               ('two-cells', [['cell', [0, 0, 1, 1], -1.0], ['cell', [0, 0, 2, 1], 0.0]])):
+            yield {'k': 'constname', 'spec': spec, 'plan': 'whatif-between-calls:' + bname, 'ins': [['cell', [0, 0, 1, 5]]],
+                   'outs': [[0, 0, 1, 6], [0, 0, 2, 6]], 'args': [[2.0], [3.0], [2.0]], 'path': path, 'mode': 'compile', 'between': between}
 
 
 def check_constname(case):
@@ -390,6 +400,9 @@ def check_constname(case):
                 sol = m.calculate(inputs=dict(zip(in_ids, vals)), **({'outputs': list(out_ids)} if mode == 'calc-outputs' else {}))
                 res = [sol[o] if o in sol else sut.Foreign('no-output') for o in out_ids]
             n += 1
+            if case.get('between'):
+                binp, _ = O.to_inputs(m, spec, case['between'])
+                m.calculate(inputs=binp)
             for k, rv in zip(case['outs'], res):
                 got = rv if isinstance(rv, sut.Foreign) else sut.one(rv)
                 exp = expected.get(tuple(k))
